@@ -52,11 +52,11 @@ theorem iteAux_tr {c1 c2 : LinComb} (hc : vEq c1 c2) : ∀ (n : Nat) {t1 t2 f1 f
         cases hf with
         | list hfs =>
           dsimp only
-          refine Tr.bind (zipWithM'_tr (fun _ _ _ _ h1 h2 => ih h1 h2) hts hfs) (fun r1 r2 hr => ?_)
+          refine Tr.iteElseRaise (by rw [hts.length_eq, hfs.length_eq]) (Tr.bind (zipWithM'_tr (fun _ _ _ _ h1 h2 => ih h1 h2) hts hfs) (fun r1 r2 hr => ?_))
           exact Tr.pure (.list hr)
         | tuple hfs =>
           dsimp only
-          refine Tr.bind (zipWithM'_tr (fun _ _ _ _ h1 h2 => ih h1 h2) hts hfs) (fun r1 r2 hr => ?_)
+          refine Tr.iteElseRaise (by rw [hts.length_eq, hfs.length_eq]) (Tr.bind (zipWithM'_tr (fun _ _ _ _ h1 h2 => ih h1 h2) hts hfs) (fun r1 r2 hr => ?_))
           exact Tr.pure (.list hr)
         | _ => exact Tr.tyErr
       | _ => refine Tr.bind (R := VRel) ?_ ?_ <;> trv
